@@ -562,6 +562,10 @@ Proof.
   destruct (has_witness ins); rewrite Z.quot_div_nonneg by lia; lia.
 Qed.
 
+Lemma est_size_vcc cf outs chg c : cfg_vcc cf = true ->
+  est_size cf outs chg c = est_vsize_gen true c outs chg.
+Proof. unfold est_size. intros ->. reflexivity. Qed.
+
 Section Top.
   Variable cf : cfg.
   Variable outs : list txout.
